@@ -6,6 +6,7 @@
 package simhook
 
 import (
+	"io"
 	"os"
 	"sync"
 	"sync/atomic"
@@ -16,6 +17,8 @@ type Scheduler interface {
 	Lock(m *Mutex)
 	Unlock(m *Mutex)
 	Go(f func())
+	// Park is a mandatory scheduling point (after a pipe hand-off).
+	Park(where string)
 }
 
 type schedBox struct{ s Scheduler }
@@ -98,4 +101,39 @@ func OsOpen(name string) (*os.File, error) {
 		return h.Open(name)
 	}
 	return os.Open(name)
+}
+
+// Pipe replaces io.Pipe in the instrumented packages. A pipe hand-off wakes
+// the other side without the scheduler's doing; to keep "who runs" a decision
+// of the scheduler the writing side parks right after every Write/Close, so
+// that after a hand-off exactly one of the two goroutines keeps running.
+func Pipe() (*io.PipeReader, *PipeWriter) {
+	r, w := io.Pipe()
+	return r, &PipeWriter{w: w}
+}
+
+type PipeWriter struct{ w *io.PipeWriter }
+
+func (p *PipeWriter) Write(b []byte) (int, error) {
+	n, err := p.w.Write(b)
+	if s := current(); s != nil {
+		s.Park("pipe.write")
+	}
+	return n, err
+}
+
+func (p *PipeWriter) Close() error {
+	err := p.w.Close()
+	if s := current(); s != nil {
+		s.Park("pipe.close")
+	}
+	return err
+}
+
+func (p *PipeWriter) CloseWithError(e error) error {
+	err := p.w.CloseWithError(e)
+	if s := current(); s != nil {
+		s.Park("pipe.close")
+	}
+	return err
 }
